@@ -2,6 +2,7 @@
 
 * REPS: the concretisation table - several concrete representatives per abstract symbol; all representatives of a symbol
   have the same length in characters (= W(s) of the specification), so the specification's marks are character marks.
+  Long runs: bulk symbols B<x> (BulkW characters of one class) and unit runs U<name>; configure(thorough) sets their widths.
 * concretise(): abstract input -> concrete text (seed-dependent choice of representatives).
 * expected(): the specification's prediction (tokens with marks and values, error kind and marks) made concrete.
 * observe_scan(): projection of what yaml.scan really does.
@@ -31,9 +32,44 @@ REPS = {
     'P1': ['%41', '%7e', '%20', '%2F'], 'P2a': ['%C3', '%c3', '%C2', '%DF'], 'P2b': ['%A9', '%a9', '%80', '%BF'],
     'Pbad': ['%FF', '%FE', '%f8'],
 }
-WIDTH = {s: len(r[0]) for s, r in REPS.items()}
-for _s, _r in REPS.items():
-    assert all(len(x) == len(_r[0]) for x in _r), _s
+# long runs (Scanner.tla: RunTable / BulkSyms / UnitSyms).  A bulk B<x> is BulkW characters of class x (the a + z copies around
+# it are ordinary symbols of the input); a unit run U<name> is UNIT_N repetitions of a token-producing unit.
+BULK_BASE = {'Bsp': 'sp', 'Btab': 'tab', 'Blf': 'lf', 'Bcr': 'cr', 'Bcrlf': 'cr', 'Bnel': 'nel', 'Bls': 'ls', 'Bps': 'ps', 'Bw': 'w',
+             'Bu': 'u', 'Bhash': '#', 'Bdash': '-', 'Bdot': '.', 'B0': '0', 'B1': '1'}
+UNITS = {'Udash': '- ', 'Uq': '? ', 'Ucolon': ': ', 'Ucomma': ',', 'Uwcomma': 'a, ', 'Uopen': '[', 'Ubrace': '{', 'Uclose': ']',
+         'Uflowq': '?', 'Uflowcolon': ':', 'Udoc': '---\n', 'Uend': '...\n', 'Uydir': '%YAML 1.1\n', 'Udir': '%FOO bar\n',
+         'Uanchor': '&a ', 'Utag': '!t ', 'Ualias': '*a ', 'Uentry': '- a\n', 'Upair': 'a: b\n', 'Ufpair': 'a: b, ', 'Ucmt': '# c\n',
+         'Usq': "'' ", 'Udq': '"" ', 'Uesc': '\\n', 'Ulit': '|\n', 'Uqq': "''", 'Ubsbs': '\\\\', 'Uempty': '-\n', 'Uqempty': '?\n'}
+BULK_W, DIGIT_BULK_W, UNIT_N = 1200, 4400, 1200
+BULK_LINES = {}
+WIDTH = {}
+
+
+def configure(thorough=False):
+    """widths of the long runs as in Scanner.tla (BulkW = 1200 / 5000 by Thorough, DigitBulkW = 4400)"""
+    global BULK_W, UNIT_N
+    BULK_W, UNIT_N = (5000, 3000) if thorough else (1200, 1200)
+    n, d = BULK_W, DIGIT_BULK_W
+    REPS.update({
+        'Bsp': [' ' * n], 'Btab': ['\t' * n], 'Blf': ['\n' * n], 'Bcr': ['\r' * n], 'Bcrlf': ['\r\n' * (n // 2)], 'Bnel': ['\x85' * n],
+        'Bls': ['\u2028' * n], 'Bps': ['\u2029' * n], 'Bw': ['k' * n, 'Z' * n, ('gkzQZ' * n)[:n]],
+        'Bu': ['\xe9' * n, '\u4e2d' * n, '\U0001f600' * n, ('\xe9\u4e2d\U0001f600' * n)[:n]], 'Bhash': ['#' * n], 'Bdash': ['-' * n],
+        'Bdot': ['.' * n], 'B0': ['0' * d], 'B1': ['1' * d, '7' * d, ('987654321' * d)[:d]]})
+    for s_, u in UNITS.items():
+        REPS[s_] = [u * UNIT_N]
+    BULK_LINES.clear()
+    BULK_LINES.update({s_: (n // 2 if s_ == 'Bcrlf' else n) for s_ in ('Blf', 'Bcr', 'Bcrlf', 'Bnel', 'Bls', 'Bps')})
+    WIDTH.clear()
+    WIDTH.update({s_: len(r[0]) for s_, r in REPS.items()})
+    for s_, r in REPS.items():
+        assert all(len(x) == len(r[0]) for x in r), s_
+
+
+configure(False)
+
+
+def has_run(symbols):
+    return any(s_ in BULK_BASE or s_ in UNITS for s_ in symbols)
 
 ESCAPES = {'0': '\0', 'a': '\x07', 'b': '\x08', 't': '\x09', '\t': '\x09', 'n': '\x0a', 'v': '\x0b', 'f': '\x0c', 'r': '\x0d',
            'e': '\x1b', ' ': ' ', '"': '"', '\\': '\\', '/': '/', 'N': '\x85', '_': '\xa0', 'L': '\u2028', 'P': '\u2029'}
@@ -91,6 +127,10 @@ def _value(items, symbols, parts):
             out.append(bytes(pend).decode('utf-8', 'replace'))
             pend.clear()
     for it in items:
+        if it > 40000:                                        # NLs(q): the line feeds a bulk of line breaks is normalised to
+            flush()
+            out.append('\n' * BULK_LINES[symbols[it - 40000 - 1]])
+            continue
         if it > 30000:
             flush()
             out.append(parts[it - 30000 - 1][1:])
@@ -138,7 +178,7 @@ def expected(state, symbols, parts):
             val = [None if t['x'] == 'nohandle' else a, b]
         elif k == 'Directive':
             if t['x'] == 'YAML':
-                val = ['YAML', [int(a), int(b)]]
+                val = ['YAML', [int(a) if len(a) <= 4300 else None, int(b) if len(b) <= 4300 else None]]
             elif t['x'] == 'TAG':
                 val = ['TAG', [a, b]]
             else:
@@ -212,6 +252,8 @@ def compare(state, symbols, parts, real):
     """L comparison (drift only): None when the real scan equals the prediction, else a short description"""
     etoks, eres, ekind, emarks = expected(state, symbols, parts)
     rtoks, rout, info = real
+    if eres == 'unmodelled':                                  # a unit run: the specification generates the input, H judges it
+        return None
     if eres == 'crash':
         return None if rout.startswith('exception:') else 'model predicts a non-YAML exception (%s), real: %s' % (ekind, rout)
     if rout != eres:
